@@ -18,8 +18,9 @@
      O e <name>
    Output per case: "R ok" or "R err open <p> <fp>" / "R err conflict <m> <s>" / "R err undefvar <x>" /
    "R err undeffunc <f>" / "R err undefenum <e> <m>", then (if ok) the current bindings of every table,
-   one per line ("V name const value": the value the initialiser evaluated to; "H name v": the value of
-   name(3) for every bound function with a known body), then END. *)
+   one per line ("V name const value": the value the initialiser evaluated to; "A name accepted|rejected":
+   what an assignment to the variable meets; "H name v": the value of name(3) for every bound function
+   with a known body), then END. *)
 open C18_model
 
 let explode s = List.init (String.length s) (String.get s)
@@ -111,6 +112,11 @@ let print_tables (t : tables) =
       | Some x -> Printf.printf "T %s %s\n" k (implode x) | None -> ()) (sorted_keys t.typedefs);
   List.iter (fun k -> match lookup (explode k) t.vars with
       | Some (c, v) -> Printf.printf "V %s %d %s\n" k (if c then 1 else 0) (onat v) | None -> ()) (sorted_keys t.vars);
+  (* what an assignment `k = 0;` by the importer meets *)
+  List.iter (fun k -> match assign t (explode k) O with
+      | Ok _ -> Printf.printf "A %s accepted\n" k
+      | Err (EConstAssign _) -> Printf.printf "A %s rejected\n" k
+      | Err _ -> ()) (sorted_keys t.vars);
   (* value of k(3) for every bound function whose node has a known body *)
   List.iter (fun k ->
       let base = match String.rindex_opt k '.' with Some j -> String.sub k (j + 1) (String.length k - j - 1) | None -> k in
@@ -169,7 +175,8 @@ let () =
          | Err (EUndefVar x) -> Printf.printf "R err undefvar %s\n" (implode x)
          | Err (EUndefFunc f) -> Printf.printf "R err undeffunc %s\n" (implode f)
          | Err (EUndefEnum (e, m)) -> Printf.printf "R err undefenum %s %s\n" (implode e) (implode m)
-         | Err (ENoBody f) -> Printf.printf "R err nobody %s\n" (implode f));
+         | Err (ENoBody f) -> Printf.printf "R err nobody %s\n" (implode f)
+         | Err (EConstAssign x) -> Printf.printf "R err constassign %s\n" (implode x));
         print_endline "END"
       | ws ->
         (match ws with
